@@ -73,7 +73,7 @@ def _one_program(args):
             if v == "twice":
                 calls = calls + [("close",), ("dump",)]
             if v == "probe":
-                calls = calls[:-1] + [("new", t) for t in range(prog["sig"]["ntypes"])] + [("dump",)]
+                calls = calls[:-1] + [("new", t) for t in range(prog["sig"]["ntypes"]) if t not in prog["sig"].get("enums", {})] + [("dump",)]
             lines, st = built.run(calls, timeout=20)
             entry["runs"].append({"variant": v, "calls": calls, "hoe": hoe, "lines": lines, "status": st})
         if cu:
